@@ -188,6 +188,20 @@ def runOp (op : String) (args : List String) : String :=
         | _, _ => none
       | _ => none
     " ".intercalate ((dedupSpec rs).map fun r => s!"{r.1}:{r.2}")
+  | "keytag", [t] => match unhex t with
+    | some b => toString (keyTag b) | _ => "bad-op"
+  | "spec.keytag", [t] => match unhex t with
+    | some b => toString (rfcKeyTag b) | _ => "bad-op"
+  | "nsec3.cover", [z, o, n, x] => match o.toNat?, n.toNat?, x.toNat? with
+    | some o, some n, some x => showB (nsec3Cover (z == "1") o n x) | _, _, _ => "bad-op"
+  | "spec.cover", [z, o, n, x] => match o.toNat?, n.toNat?, x.toNat? with
+    | some o, some n, some x => showB (z == "1" && decide (strictlyBetweenCircular o n x)) | _, _, _ => "bad-op"
+  | "nsec3.match", [z, o, x] => match o.toNat?, x.toNat? with
+    | some o, some x => showB (nsec3Match (z == "1") o x) | _, _ => "bad-op"
+  | "valid", [i, e, t] => match i.toInt?, e.toInt?, t.toInt? with
+    | some i, some e, some t => showB (validityPeriod i e t) | _, _, _ => "bad-op"
+  | "spec.valid-period", [i, e, t] => match i.toInt?, e.toInt?, t.toInt? with
+    | some i, some e, some t => showB (decide (i ≤ t) && decide (t ≤ e)) | _, _, _ => "bad-op"
   | "lab.count", [t] => match unhex t with
     | some s => toString (countLabel s) | _ => "bad-op"
   | "lab.split", [t] => match unhex t with
